@@ -245,10 +245,11 @@ fn magnitude(beh: &Value) -> f64 {
 }
 
 fn replay(beh: &Value, line: usize, m: &Map, rep: &mut Report, observe: &str) {
-    let (ob_state, ob_cmd, ob_data) = (observe != "cmd", observe != "state", observe == "all");
+    // "times": presence and timestamps of everything, values ignored (C03)
+    let (ob_state, ob_cmd, ob_data) = (observe != "cmd", observe != "state", observe == "all" || observe == "times");
     let scen = &beh["scen"];
     let steps = beh["steps"].as_array().unwrap();
-    let mag = magnitude(beh) * 2f64.powi(m.scale_pow2);
+    let mag = if observe == "times" { 1e300 } else { magnitude(beh) * 2f64.powi(m.scale_pow2) };
     let bad = |rep: &mut Report, step: usize, what: &str, exp: Value, got: Value| {
         rep.mismatch(json!({"line": line, "family": beh["family"], "map": m.json(), "step": step, "what": what, "exp": exp, "got": got}));
     };
